@@ -287,6 +287,10 @@ func (t *Tokenizer) tokenizeBuffer(buf []byte, last bool) error {
 				if digitMap[b] != numDigit {
 					break
 				}
+				if gen.BigLimit < t.num.I { // one more digit would not fit
+					t.num.AddDigit(b)
+					break
+				}
 				t.num.I = t.num.I*10 + uint64(b-'0')
 				if math.MaxInt64 < t.num.I {
 					t.num.FillBig()
@@ -369,6 +373,10 @@ func (t *Tokenizer) tokenizeBuffer(buf []byte, last bool) error {
 				}
 				t.num.Frac = t.num.Frac*10 + uint64(b-'0')
 				t.num.Div *= 10.0
+				if gen.BigLimit <= t.num.Div { // the divisor cannot grow further
+					t.num.FillBig()
+					break
+				}
 				if math.MaxInt64 < t.num.Frac {
 					t.num.FillBig()
 					break
